@@ -50,6 +50,8 @@ func init() {
 		mutation{"notify-closed-interval", "chord/local_chord.go", "chord.Between(predecessorSnapshot.ID(), predecessor.ID(), n.ID(), false)", "chord.Between(predecessorSnapshot.ID(), predecessor.ID(), n.ID(), true)", "interval"},
 		mutation{"stabilize-interval-swapped", "chord/local_tasks.go", "chord.Between(n.ID(), newSucc.ID(), head.ID(), false)", "chord.Between(head.ID(), newSucc.ID(), n.ID(), false)", "interval"},
 		mutation{"pred-write-under-rlock", "chord/local_tasks.go", "		n.predecessorMu.Lock()\n		if n.predecessor == pre {", "		n.predecessorMu.RLock()\n		if n.predecessor == pre {", "guarded-write"},
+		mutation{"check-predecessor-without-cas", "chord/local_tasks.go", "		if n.predecessor == pre {\n			n.predecessor = nil\n			n.logger.Info(\"Discovered dead predecessor\",\n				zap.Object(\"old\", pre.Identity()),\n				zap.String(\"new\", \"nil\"),\n			)\n		}", "		n.predecessor = nil\n		n.logger.Info(\"Discovered dead predecessor\",\n			zap.Object(\"old\", pre.Identity()),\n			zap.String(\"new\", \"nil\"),\n		)", "snapshot-cas"},
+		mutation{"notify-surrogate-cas-outside-lock", "chord/local_chord.go", "		n.surrogateMu.Lock()\n		if surrogateSnapshot == n.surrogate {", "		unchanged := surrogateSnapshot == n.surrogate\n		n.surrogateMu.Lock()\n		if unchanged {", "snapshot-cas"},
 		mutation{"notify-without-cas", "chord/local_chord.go", "		if predecessorSnapshot == n.predecessor {\n			n.predecessor = candidatePredecessor\n		}", "		n.predecessor = candidatePredecessor", "notify-cas"},
 		mutation{"stabilize-no-notify", "chord/local_tasks.go", "if modified && len(succList) > 0 && n.checkNodeState(true) == nil {", "if modified && len(succList) > 1 && n.checkNodeState(true) == nil {", "stabilize-notify"},
 	)
@@ -478,6 +480,7 @@ func runC02(c *Ctx) {
 		c.Ob("notify-cas", "Notify#adopts-candidate", w.stmt.Pos(), strings.Contains(g.Prov(w.stmt.Rhs[0]), "param#0"), "the adopted value is the notifying node; found "+g.Prov(w.stmt.Rhs[0]))
 	}
 	c.Floor("Notify predecessor writes", ncas, 1)
+	snapshotCASRule(c)
 }
 
 func isLenCmp(f *Fn, e ast.Expr, op token.Token, val string) bool {
@@ -994,4 +997,98 @@ func advisoryBeforeRelease(c *Ctx) {
 		}
 	}
 	c.Floor("successor release sites in Join/Leave", n, 2)
+}
+
+// snapshotCASRule: the maintenance paths (Notify, checkPredecessor) decide on a snapshot of
+// a neighbour pointer taken in an earlier critical section, do slow work (a ping, interval
+// tests), and come back to write. A membership change may have replaced the pointer in
+// between (a joiner became predecessor): the write is legitimate only as a compare-and-set
+// against that snapshot, tested in the same critical section as the write.
+func snapshotCASRule(c *Ctx) {
+	n := 0
+	for _, t := range []struct{ field, lock string }{
+		{"chord.LocalNode.predecessor", "predecessorMu"},
+		{"chord.LocalNode.surrogate", "surrogateMu"},
+	} {
+		short := t.field[strings.LastIndex(t.field, ".")+1:]
+		for _, w := range fieldWrites(c, "chord", t.field) {
+			root := w.fn.root().Name
+			if root != "chord.(LocalNode).Notify" && root != "chord.(LocalNode).checkPredecessor" {
+				continue
+			}
+			n++
+			g := w.fn.enclosing(w.stmt)
+			// the snapshot tests of this function: field == snapshot (either operand order)
+			isTest := func(e ast.Expr) (bool, bool) {
+				be, ok := ast.Unparen(e).(*ast.BinaryExpr)
+				if !ok || (be.Op != token.EQL && be.Op != token.NEQ) {
+					return false, false
+				}
+				other := be.X
+				if g.FieldKey(be.X) == t.field {
+					other = be.Y
+				} else if g.FieldKey(be.Y) != t.field {
+					return false, false
+				}
+				if g.FieldKey(other) == t.field || g.Prov(other) != "recv."+short {
+					return false, false
+				}
+				return true, be.Op == token.EQL
+			}
+			var test ast.Expr
+			testTruth := true
+			// edge-cut form (facts about fields do not survive the method calls between the
+			// test and the write): with the edges on which a snapshot test holds removed,
+			// the write is unreachable from the entry
+			reached, _ := g.Reach(nil, nil, func(b *cfgBlock, si int) bool {
+				for _, at := range g.edgeAtoms(b, si) {
+					if ok, eq := isTest(at.e); ok && at.tag == nil && at.truth == eq {
+						test, testTruth = at.e, at.truth
+						return true
+					}
+				}
+				return false
+			})
+			for _, m := range reached {
+				if m == ast.Node(w.stmt) {
+					test = nil
+				}
+			}
+			same := false
+			if test != nil {
+				same = lockHeldAt(w.fn, test, t.lock, 'W') && lockHeldAt(w.fn, w.stmt, t.lock, 'W')
+				between, _ := g.Reach(test, func(m ast.Node) bool { return m == ast.Node(w.stmt) }, func(b *cfgBlock, si int) bool {
+					// only the paths on which the test held lead to the write
+					for _, at := range g.edgeAtoms(b, si) {
+						if at.e == test && at.truth != testTruth {
+							return true
+						}
+					}
+					return false
+				})
+				for _, m := range between {
+					if m == ast.Node(w.stmt) {
+						continue
+					}
+					ast.Inspect(m, func(x ast.Node) bool {
+						if call, ok := x.(*ast.CallExpr); ok {
+							if se, ok := call.Fun.(*ast.SelectorExpr); ok && (se.Sel.Name == "Unlock" || se.Sel.Name == "RUnlock") && strings.HasSuffix(g.Prov(se.X), "."+t.lock) {
+								// released on the way only if the write is still ahead of the release
+								after, _ := g.Reach(m, func(y ast.Node) bool { return y == ast.Node(w.stmt) }, nil)
+								for _, y := range after {
+									if y == ast.Node(w.stmt) {
+										same = false
+									}
+								}
+							}
+						}
+						return true
+					})
+				}
+			}
+			c.Ob("snapshot-cas", strings.TrimPrefix(root, "chord.(LocalNode).")+"#"+short+"-written-only-if-unchanged-since-snapshot", w.stmt.Pos(), test != nil && same,
+				"a maintenance path writes "+short+" only after testing, in the same "+t.lock+" critical section, that it still equals the snapshot the decision was made on (a join completing in between must not be overwritten)")
+		}
+	}
+	c.Floor("maintenance pointer writes", n, 4)
 }
